@@ -118,6 +118,21 @@ func (m *c03CtxMutator) MutateOperationContext(ctx context.Context, opCtx *graph
 	return nil
 }
 
+// c03Both implements both mutator interfaces in one extension value.
+type c03Both struct {
+	pm *c03ParamMutator
+	cm *c03CtxMutator
+}
+
+func (m *c03Both) ExtensionName() string                          { return "both" }
+func (m *c03Both) Validate(schema graphql.ExecutableSchema) error { return nil }
+func (m *c03Both) MutateOperationParameters(ctx context.Context, request *graphql.RawParams) *gqlerror.Error {
+	return m.pm.MutateOperationParameters(ctx, request)
+}
+func (m *c03Both) MutateOperationContext(ctx context.Context, opCtx *graphql.OperationContext) *gqlerror.Error {
+	return m.cm.MutateOperationContext(ctx, opCtx)
+}
+
 // c03Cache is a query cache whose content is arbitrary but satisfies the
 // invariant "every stored document was validated for exactly its key".
 type c03Cache struct {
@@ -156,12 +171,20 @@ func Harness_C03_gates() {
 	ncm := zzsym.Choice("ncm", 3)
 	var pms []*c03ParamMutator
 	var cms []*c03CtxMutator
-	for k := 0; k < npm; k++ {
+	// one extension value may implement both mutator interfaces (registered first: its hooks run first in both phases)
+	combined := npm > 0 && ncm > 0 && zzsym.Choice("combined", 2) == 1
+	if combined {
+		b := &c03Both{pm: &c03ParamMutator{idx: 0, reject: zzsym.Bool("pm.reject")}, cm: &c03CtxMutator{idx: 0, reject: zzsym.Bool("cm.reject")}}
+		pms = append(pms, b.pm)
+		cms = append(cms, b.cm)
+		e.Use(b)
+	}
+	for k := len(pms); k < npm; k++ {
 		m := &c03ParamMutator{idx: k, reject: zzsym.Bool("pm.reject")}
 		pms = append(pms, m)
 		e.Use(m)
 	}
-	for k := 0; k < ncm; k++ {
+	for k := len(cms); k < ncm; k++ {
 		m := &c03CtxMutator{idx: k, reject: zzsym.Bool("cm.reject")}
 		cms = append(cms, m)
 		e.Use(m)
